@@ -94,63 +94,72 @@ def splitKey (k : String) : List String := k.splitOn "."
 /-- `get_dotted_key(k, o)` for a dotted key string -/
 def getDotted (k : String) (o : V) : Lk V := walk (splitKey k) o
 
-/-- substitute every embedded key (lookup, `str()`, textual replace), left to right -/
-def substKeys (opts : V) : List String → String → Except RErr String
-  | [], s => .ok s
-  | k :: ks, s =>
+/-- substitute every embedded key (lookup, `str()`, textual replace), left to right;
+    also returns the keys looked up -/
+def substKeys (opts : V) : List String → String → List String → Except RErr String × List String
+  | [], s, rd => (.ok s, rd)
+  | k :: ks, s, rd =>
     match getDotted k opts with
-    | .found v => substKeys opts ks (replaceAll ("{" ++ k ++ "}") (pyStr v) s)
-    | .keyErr => .error (.key k)
-    | .typeErr => .error .type
+    | .found v => substKeys opts ks (replaceAll ("{" ++ k ++ "}") (pyStr v) s) (rd ++ [k])
+    | .keyErr => (.error (.key k), rd ++ [k])
+    | .typeErr => (.error .type, rd ++ [k])
 
-/-- `confectioner.templating.resolve(x, opts)`; `none` = out of fuel (Python: RecursionError) -/
-def resolve : Nat → V → V → Option (Except RErr V)
+/-- `confectioner.templating.resolve(x, opts)` together with the *read log* (every dotted key
+    looked up in `opts`, in order); `none` = out of fuel (Python: RecursionError) -/
+def resolveR : Nat → V → V → Option (Except RErr V × List String)
   | 0, _, _ => Option.none
   | n + 1, x, opts =>
     match x with
     | .dict kvs =>
-      let rec goK : List (String × V) → Option (Except RErr (List (String × V)))
-        | [] => some (.ok [])
+      let rec goK : List (String × V) → Option (Except RErr (List (String × V)) × List String)
+        | [] => some (.ok [], [])
         | (k, v) :: rest =>
-          match resolve n v opts with
+          match resolveR n v opts with
           | Option.none => Option.none
-          | some (.error e) => some (.error e)
-          | some (.ok v') => match goK rest with
+          | some (.error e, rd) => some (.error e, rd)
+          | some (.ok v', rd) => match goK rest with
             | Option.none => Option.none
-            | some (.error e) => some (.error e)
-            | some (.ok rest') => some (.ok ((k, v') :: rest'))
+            | some (.error e, rd') => some (.error e, rd ++ rd')
+            | some (.ok rest', rd') => some (.ok ((k, v') :: rest'), rd ++ rd')
       match goK kvs with
       | Option.none => Option.none
-      | some (.error e) => some (.error e)
-      | some (.ok kvs') => some (.ok (.dict kvs'))
+      | some (.error e, rd) => some (.error e, rd)
+      | some (.ok kvs', rd) => some (.ok (.dict kvs'), rd)
     | .list xs =>
-      let rec goL : List V → Option (Except RErr (List V))
-        | [] => some (.ok [])
+      let rec goL : List V → Option (Except RErr (List V) × List String)
+        | [] => some (.ok [], [])
         | v :: rest =>
-          match resolve n v opts with
+          match resolveR n v opts with
           | Option.none => Option.none
-          | some (.error e) => some (.error e)
-          | some (.ok v') => match goL rest with
+          | some (.error e, rd) => some (.error e, rd)
+          | some (.ok v', rd) => match goL rest with
             | Option.none => Option.none
-            | some (.error e) => some (.error e)
-            | some (.ok rest') => some (.ok (v' :: rest'))
+            | some (.error e, rd') => some (.error e, rd ++ rd')
+            | some (.ok rest', rd') => some (.ok (v' :: rest'), rd ++ rd')
       match goL xs with
       | Option.none => Option.none
-      | some (.error e) => some (.error e)
-      | some (.ok xs') => some (.ok (.list xs'))
+      | some (.error e, rd) => some (.error e, rd)
+      | some (.ok xs', rd) => some (.ok (.list xs'), rd)
     | .str s =>
       match findKeys s with
-      | [] => some (.ok (.str (unescape s)))
-      | ks =>
-        if ks.length = 1 ∧ s = "{" ++ ks.head! ++ "}" then
-          match getDotted ks.head! opts with
-          | .found v => resolve n v opts
-          | .keyErr => some (.error (.key ks.head!))
-          | .typeErr => some (.error .type)
+      | [] => some (.ok (.str (unescape s)), [])
+      | k :: ks =>
+        if ks = [] ∧ s = "{" ++ k ++ "}" then
+          match getDotted k opts with
+          | .found v => match resolveR n v opts with
+            | Option.none => Option.none
+            | some (r, rd) => some (r, k :: rd)
+          | .keyErr => some (.error (.key k), [k])
+          | .typeErr => some (.error .type, [k])
         else
-          match substKeys opts ks s with
-          | .error e => some (.error e)
-          | .ok s' => resolve n (.str s') opts
-    | v => some (.ok v)
+          match substKeys opts (k :: ks) s [] with
+          | (.error e, rd) => some (.error e, rd)
+          | (.ok s', rd) => match resolveR n (.str s') opts with
+            | Option.none => Option.none
+            | some (r, rd') => some (r, rd ++ rd')
+    | v => some (.ok v, [])
+
+def resolve (n : Nat) (x opts : V) : Option (Except RErr V) :=
+  (resolveR n x opts).map Prod.fst
 
 end Labrea
